@@ -83,7 +83,7 @@ def columns_provenance(ctx):
         if e.loops and e.loops[-1] in {l.id for l in loops}:
             l = fa.loops[e.loops[-1]]
             col = mk_elem(l.iter, l.id, ())
-            neg = [c for c, p in e.guards if c == T.cmp('not in', col, e.f[1]) and p]
+            neg = e.under(T.cmp('not in', col, e.f[1]))
             if arg(e, 1) == col and neg:
                 ok_ins = True
     ctx.check(ok_ins, R, 'id-columns-inserted', ctx.where(fa),
@@ -272,8 +272,7 @@ def metadata_provenance(ctx):
     fc = ctx.fa('cooler.create._create.create')
     for key, par in (('genome-assembly', 'assembly'), ('metadata', 'metadata')):
         st = [e for e in events(fc, 'store_sub') if e.key == C(key)]
-        ok = any(e.value == V(par) and any(c == T.cmp('is not', V(par), T.NONE) and p for c, p in e.guards)
-                 for e in st)
+        ok = any(e.value == V(par) and e.under(T.cmp('is not', V(par), T.NONE)) for e in st)
         ctx.check(ok, R, f'info[{key}]', ctx.where(fc, st[-1] if st else None),
                   found=[T.show(e.value) for e in st], expected=f'info["{key}"] = {par} when {par} is not None',
                   reason='the value given at creation must reach the attributes')
